@@ -67,6 +67,12 @@ def _make_c29_classes():
         ns = {n: DeviceVar(f, write=True) for n, f in _c29_decl(k).items()}
         ns["__module__"] = __name__
         ns["__qualname__"] = f"C29Dev{k}"
+        if k in (1, 5, 6):
+            # devices that compare (and hash) equal when they are configured
+            # alike, as a dataclass(unsafe_hash=True) device would: two
+            # instances are still two devices
+            ns["__eq__"] = lambda a, b: type(a) is type(b)
+            ns["__hash__"] = lambda a: 4711
         base = Device if k < C29_PLAIN else out[k - C29_PLAIN]
         cls = type(f"C29Dev{k}", (base,), ns)
         cls.c29_vars = _c29_effective(k)
